@@ -299,6 +299,56 @@ def r5_file_events_not_dropped(ctx):
         r.anchor_missing("intermediate results with file_events (found %d, 17 on the pinned tree)" % n)
 
 
+def r6_listing_and_attachments(ctx):
+    """(a) a blob listed from a directory is named by its whole file name
+    (`<sha256>` — a temporary `<sha256>.upload` / `.download` must not parse as a
+    stored blob); (b) the attachments of a secret are enumerated whatever the
+    kind of the secret itself."""
+    ws = ctx.ws
+    r = ctx.rule("C17-R6", "listed blobs are named by the whole file name; attachment fields are enumerated for every secret kind",
+                 floor=2, kind="K4 flow (source of the parsed name) + K2 reachability outside one match arm")
+    n = 0
+    for f in ws.find_fns(r"^sos_external_files::file_helpers::list_\w+$"):
+        fg = FlowGraph(ws, f)
+        for b in f.bodies:
+            for i, t in idioms.real_calls(b, cfg.live_blocks(b)):
+                full = (t.get("callee_full") or "") + " " + " ".join(t.get("targs") or [])
+                if cname(t) not in ("parse", "from_str", "try_from", "try_into") or "ExternalFileName" not in full:
+                    continue
+                n += 1
+                sl = fg.back_from_operand(b, t["args"][0])
+                names = {cname(ct) for _b, _i, ct in sl.calls}
+                k = "%s|name-source" % f.root
+                if names & {"file_stem", "with_extension", "file_prefix", "strip_suffix", "trim_end_matches", "split"}:
+                    r.violation(k, cfg.loc(b, i), "the listed blob name is parsed from %s, not from the whole file name: `<sha256>.upload` left by an interrupted transfer is reported as the stored blob `<sha256>`" % sorted(names & {"file_stem", "with_extension", "file_prefix", "strip_suffix", "trim_end_matches", "split"}), work=len(sl.nodes))
+                elif "file_name" in names:
+                    r.ok(k, cfg.loc(b, i), "parsed from Path::file_name()", work=len(sl.nodes))
+                else:
+                    r.violation(k, cfg.loc(b, i), "the listed blob name is not derived from Path::file_name()", work=len(sl.nodes))
+    if n == 0:
+        r.anchor_missing("ExternalFileName parse in sos_external_files::file_helpers::list_*")
+    gf = ws.find_fns(r"^sos_client_storage::files::file_manager::get_external_file_secrets$")
+    if not gf:
+        if ctx.config == "workspace":
+            r.anchor_missing("file_manager::get_external_file_secrets")
+        return
+    b = gf[0].main
+    live = cfg.live_blocks(b)
+    sites = [i for i, t in idioms.real_calls(b, live) if cname(t) == "fields" and "UserData" in (t.get("callee") or "")]
+    k = gf[0].root + "|attachments-for-every-kind"
+    if not sites:
+        r.violation(k, cfg.loc(b), "get_external_file_secrets no longer walks the attachment fields", work=1)
+        return
+    cut = set()
+    for es in cfg.enum_switches(b):
+        if es.enum == "sos_vault::secret::Secret" and "File" in es.targets and all(x not in cfg.reach(b, [0], cut_blocks=[es.block]) for x in sites):
+            cut.add((es.block, es.targets["File"]))
+    if cut and not any(x in cfg.reach(b, [0], cut_edges=cut) for x in sites):
+        r.violation(k, cfg.loc(b, sites[0]), "the attachment fields are only walked inside the `Secret::File` arm: a file attached to a note, login .. is not seen by move/delete, so its blob does not follow the secret", work=len(live))
+    else:
+        r.ok(k, cfg.loc(b, sites[0]), "attachment fields are walked for every secret kind", work=len(live))
+
+
 THOROUGH_CONFIGS = ['net-min']
 
 
@@ -317,3 +367,4 @@ def run(ctx):
     r3_mutations_logged(ctx)
     r4_reducer_and_compare(ctx)
     r5_file_events_not_dropped(ctx)
+    r6_listing_and_attachments(ctx)
